@@ -770,10 +770,10 @@ def adapt_typehints(
 
     # Literal
     elif typehint_origin in literal_types:
-        if val not in subtypehints and isinstance(val, str):
+        if not is_literal_member(val, subtypehints) and isinstance(val, str):
             subtypes = Union[tuple({type(v) for v in subtypehints if type(v) is not str})]
             val = adapt_typehints(val, subtypes, **adapt_kwargs)
-        if val not in subtypehints:
+        if not is_literal_member(val, subtypehints):
             raise_unexpected_value(f"Expected a {typehint}", val)
 
     # Basic types
@@ -1487,6 +1487,11 @@ def sort_subtypes_for_union(subtypes, val, append):
         if append:
             subtypes = sorted(subtypes, key=lambda x: get_typehint_origin(x) not in sequence_origin_types)
     return subtypes
+
+
+def is_literal_member(val, subtypehints) -> bool:
+    # bool is a subclass of int and True == 1, thus also compare types
+    return any(type(v) is type(val) and v == val for v in subtypehints)
 
 
 def is_ellipsis_tuple(typehint):
